@@ -406,7 +406,12 @@ EXTRA = {'C01': 'Each configuration additionally runs with failing appenders (no
         'refresh rate in use (45 ms): later edits must still be applied. In the YAML rendering, versions v and v + 2 '
         'differ in one line break at the end of the file (part of a keep-chomped block scalar). Every other child of '
         'the live scenarios runs with a standard error stream nobody reads. In every fourth live scenario the '
-        'modification times are the moment of the edit.',
+        'modification times are the moment of the edit. ReloaderLive.tla has the loop at the grain of its system calls '
+        '(the editor acts between the stat and the read of a poll, and between the two looks of init_file): '
+        'Converges / BadKeeps / LoopReturns are checked under weak fairness, with two negative controls (an editor '
+        'that reproduces the remembered modification time; init_file reading before it takes the time - repair F17), '
+        'and every behaviour of a bounded instance is replayed through init_file and the real refresh thread in a '
+        'child process each, the edits made at the sync points init_file.looked / reloader.stat.',
  'C16': 'Every other history builds the whole appender (compound policy, trigger kind `time`) from a configuration '
         'value. Random-delay bounds up to u64::MAX. Counts of hours / minutes / seconds around 2^31 / 2^32 seconds '
         'and at the 1000-year maxima (NextTimeBig); lifetimes of 300 arrivals sampled with TLC -simulate. Every DST '
